@@ -83,6 +83,7 @@ pub fn exact_coincidence(q: &Query) -> bool {
 /// section names for by-name queries: present names, prefixes, absent
 pub fn name_queries(r: &RefFile<'_>, rng: &mut crate::rng::Rng, max: usize) -> Vec<String> {
     let mut v: Vec<String> = Vec::new();
+    let mut special: Vec<String> = Vec::new();
     for i in 0..r.shnum().min(64) {
         if let Some(sh) = r.shdr(i) {
             if let Some(n) = r.sec_name(&sh) {
@@ -99,10 +100,51 @@ pub fn name_queries(r: &RefFile<'_>, rng: &mut crate::rng::Rng, max: usize) -> V
             }
         }
     }
+    // queries cut straight out of the section-name string table: two adjacent entries joined by their NUL, an
+    // entry with its terminator, and the unterminated tail of the table
+    if let crate::reference::locator::ShStrtab::Range(s, l) = r.shstrtab() {
+        let tab = &r.data[s..s + l];
+        for _ in 0..3 {
+            if tab.len() < 2 {
+                break;
+            }
+            let a = rng.usize_below(tab.len());
+            let b = (a + 1 + rng.usize_below(24)).min(tab.len());
+            if let Ok(q) = std::str::from_utf8(&tab[a..b]) {
+                if q.contains('\0') || b == tab.len() {
+                    special.push(q.to_string());
+                }
+            }
+        }
+        let tail_start = tab.iter().rposition(|c| *c == 0).map(|p| p + 1).unwrap_or(0);
+        if let Ok(q) = std::str::from_utf8(&tab[tail_start..]) {
+            if !q.is_empty() {
+                special.push(q.to_string());
+            }
+        }
+        // the unterminated tail continued by the file bytes that follow the table (they are not part of any name)
+        if tail_start < tab.len() && s + l < r.data.len() {
+            let after = &r.data[s + l..(s + l + 64).min(r.data.len())];
+            let e = after.iter().position(|c| *c == 0).unwrap_or(after.len());
+            for cut in [e, 1.min(e), rng.usize_below(e + 1)] {
+                if let Ok(q) = std::str::from_utf8(&r.data[s + tail_start..s + l + cut]) {
+                    special.push(q.to_string());
+                }
+            }
+        }
+    }
     v.push(".absent".to_string());
     v.push(String::new());
     rng.shuffle(&mut v);
     v.truncate(max);
+    // one of the table-shaped queries takes the place of the last pick half of the time
+    if !special.is_empty() && max > 0 && rng.bool() {
+        let q = special[rng.usize_below(special.len())].clone();
+        if v.len() >= max {
+            v.pop();
+        }
+        v.push(q);
+    }
     v
 }
 
